@@ -27,7 +27,7 @@ ANCHORS = ['str_to_bitstore', 'tokenparser', 'preprocess_tokens', 'parse_name_le
            'parse_single_token', 'Dtype._new_from_token', 'Dtype._create', 'Options.set_lsb0', 'pack', 'Bits._readlist']
 REQUIRED_OPS = ['ctor', 'fromstring', 'pack', 'unpack', 'readlist', 'dtype', 'array-dtype', 'toggle', 'mutate-earlier']
 MIN_EVALS = {'quick': 2000, 'thorough': 40000}
-PINNED_CACHES = ['str_to_bitstore', 'tokenparser', 'preprocess_tokens', 'parse_name_length_token',
+PINNED_CACHES = ['str_to_bitstore', '_str_to_bitstore', 'tokenparser', 'preprocess_tokens', 'parse_name_length_token',
                  'parse_single_struct_token', 'parse_single_token', '_new_from_token', '_create']
 ASSUMPTIONS = ['cold reference = same call in a fresh interpreter after cache_clear() on every cache-like object found by '
                'scanning the package']
@@ -145,6 +145,7 @@ def gen_history(ctx, n):
     strs = [f'0x{rng.getrandbits(24):06x}' for _ in range(S // 2)] + \
            [f'uint{rng.choice([8, 12, 16])}={rng.randint(0, 255)}' for _ in range(S // 4)] + \
            [f'0b{rbits(rng.randint(1, 20))}, 0x{rng.getrandbits(8):02x}' for _ in range(S // 4)] + \
+           [f'uint:{i}={i % 2}, int:{i + 1}=-1' for i in range(1, 340)] + \
            [f'e4m3mxfp={v}' for v in (1000, 500, -1000, 3.0, 1e9, 448, 449.0)] + [f'e5m2mxfp={v}' for v in (1e6, -1e6, 2.0, 57344, 60000.0)] + \
            [f'ue={i}' for i in range(6)] + [f'se={i}' for i in range(-3, 3)] + [f'uie={i}' for i in range(3)] + [f'sie={i}' for i in (-2, 1)] + \
            ['0b1, 0x2', 'float32=1.5', 'u 8=3', 'uint:8=3', 'u8=3', 'UINT:8=3', ' uint : 8 = 3 ', 'int:4=-1', 'hex:8=ff', 'bool=1',
@@ -170,7 +171,7 @@ def gen_history(ctx, n):
     def nxt(name, pool):
         """mostly march through the key stream (forces evictions), sometimes revisit an early or recent key"""
         r = rng.random()
-        if r < 0.6:
+        if r < 0.7:
             i = cursors[name] % len(pool)
             cursors[name] += 1
             return pool[i]
@@ -193,7 +194,7 @@ def gen_history(ctx, n):
             hist.append({'kind': 'mutate-earlier', 'how': rng.choice(['invert', 'append', 'tobitarray-invert', 'clear', 'derive', 'array-data']),
                          'opts': list(opts)})
             continue
-        k = rng.choice(['ctor', 'ctor', 'ctor', 'fromstring', 'pack', 'unpack', 'readlist', 'dtype', 'dtype', 'array-dtype', 'find'])
+        k = rng.choice(['ctor', 'ctor', 'ctor', 'ctor', 'fromstring', 'pack', 'unpack', 'readlist', 'dtype', 'dtype', 'array-dtype', 'array-dtype', 'find'])
         if k in ('ctor', 'fromstring'):
             c = {'kind': k, 'cls': rng.choice(['Bits', 'BitArray', 'ConstBitStream', 'BitStream']), 's': nxt('str', strs)}
         elif k == 'pack':
@@ -363,7 +364,7 @@ def run(ctx):
                 f.cache_clear()
             compare(ctx, h, warm_pass(ctx, h))
     n = ctx.scale(14000, 200000)
-    n = max(n, 3200)       # every shard must fill each cache beyond maxsize on its own
+    n = max(n, 6000)       # every shard must fill each cache beyond maxsize on its own
     hist = gen_history(ctx, n)
     ctx.current_case = {'history-length': len(hist)}
     warm = warm_pass(ctx, hist)
